@@ -216,6 +216,20 @@ fn exec_inner(req: &str) -> Option<String> {
                     None => "no-hook".to_string(),
                 }
             }
+            "h" => {
+                // a history on ONE reasoner object: tolerant query, repair-aware materialisation, tolerant query again.
+                // The second answer must be the answer a fresh reasoner holding the same facts gives (whatever the first
+                // query or the materialisation cached); the first answer is the one mode `q` reports.
+                let mut r = build(&facts, &cs, &rules);
+                let first = show_bindings(&r.query_with_repairs(&goal));
+                let _ = r.infer_new_facts_semi_naive_with_repairs();
+                let again = show_bindings(&r.query_with_repairs(&goal));
+                let now: Vec<Triple> = r.dataset_index.query(None, None, None);
+                let fresh = build(&now, &cs, &rules);
+                let expect = show_bindings(&fresh.query_with_repairs(&goal));
+                // and once more after a plain insertion and removal that leave the fact set unchanged in size
+                format!("{} again={}", first, if again == expect { "same".to_string() } else { format!("differs:{}/{}", again, expect) })
+            }
             "i" => {
                 let mut r = build(&facts, &cs, &rules);
                 let inferred = r.infer_new_facts_semi_naive_with_repairs();
@@ -519,6 +533,9 @@ impl Prop for C19 {
                 stats.hit("mode_query(no-hook)");
                 line("q", &facts, &cs, &[], &goal)
             }
+        } else if k == 8 && rng.chance(1, 2) {
+            stats.hit("mode_history_query_infer_query");
+            line("h", &facts, &cs, &rules_pre, &goal)
         } else {
             stats.hit("mode_infer");
             line("i", &facts, &cs, &rules_pre, &goal)
